@@ -64,7 +64,7 @@ func decodeStored(raw []byte) (int, int) {
 		}
 	}
 	if err := json.Unmarshal(raw, &v); err != nil {
-		return 9999, 0
+		return 4095, 0
 	}
 	if v.State == nil {
 		return 0, 0
@@ -127,7 +127,7 @@ func (d *FaultDB) decodedStore() [][2]int {
 	for i, id := range d.ids {
 		raw, err := d.base.Get(ctx, connPrefix+id)
 		if err != nil {
-			out[i] = [2]int{9999, 0}
+			out[i] = [2]int{4095, 0}
 			continue
 		}
 		n, r := decodeStored(raw)
